@@ -344,11 +344,59 @@ def features(d, dd_info):
     return f
 
 
+def literal_words(d):
+    """the string literals (two or more characters) occurring in the rules and bindings of a definition, in source order, without repeats"""
+    out, seen = [], set()
+
+    def walk(r):
+        if r is None:
+            return
+        if r[0] == 'str':
+            if len(r[1]) >= 2 and tuple(r[1]) not in seen:
+                seen.add(tuple(r[1]))
+                out.append(list(r[1]))
+        elif r[0] in ('star', 'plus', 'opt'):
+            walk(r[1])
+        elif r[0] in ('cat', 'alt', 'diff'):
+            walk(r[1])
+            walk(r[2])
+    for it in d['items']:
+        if it[0] == 'let':
+            walk(it[2])
+        elif it[0] == 'rule':
+            walk(it[2])
+            walk(it[3])
+        elif it[0] == 'ruleset':
+            for x in it[2]:
+                if x[0] == 'let':
+                    walk(x[2])
+                else:
+                    walk(x[2])
+                    walk(x[3])
+    return out
+
+
 def make_cases(d, dd, rng, builtins, p, fixed_inputs, fixed_scripts):
     nm = d['name']
     inputs = list(fixed_inputs.get(nm, []))
-    inputs += corpus.edge_covering_inputs(dd['body'], p['edge_inputs'])
+    n_rules = len(rules_in_order(d))
+    # big definitions get proportionally more edge-covering inputs (every state of a large automaton, not only those next to the entry)
+    inputs += corpus.edge_covering_inputs(dd['body'], p['edge_inputs'] * (1 + n_rules // 8))
     inputs += gen_defs.gen_inputs(rng, d, builtins, n_random=p['n_rand_inputs'], exhaustive_len=p['n_exh'], max_alpha=p['max_alpha'])
+    # the string literals of the definition: each alone, each followed by a letter, and all of them in one text (in source order and reversed),
+    # separated by the first single-character rule without right-hand side, if there is one
+    lits = literal_words(d)
+    if lits:
+        sep = next(([r[3][1]] for r in rules_in_order(d) if r[2] == 'none' and r[3][0] == 'chr'), [0x20])
+        for w in lits[:40]:
+            inputs.append(list(w))
+            inputs.append(list(w) + [0x7A])
+        for order in (lits, lits[::-1]):
+            text = []
+            for w in order[:80]:
+                text += list(w) + sep
+            inputs.append(text)
+            inputs.append([c for w in order[:80] for c in w])
     # long inputs: one repeated character, unlexable only, long mix (C09)
     alpha = gen_defs.def_alphabet(d, builtins) or [97]
     n_before_special = len(inputs)
